@@ -37,7 +37,9 @@ LEAVES = ['role:admin', 'role:member', 'role:r0', 'is_admin:True', 'user_id:%(us
 def gen_policy(rng):
     rules = {}
     for i in range(rng.randint(1, 6)):
-        name = rng.choice(['svc:op%d' % i, 'compute:get%d' % i, 'plainname%d' % i])
+        name = rng.choice(['svc:op%d' % i, 'compute:get%d' % i, 'plainname%d' % i,
+                           # names whose plain string order differs from any order by components
+                           'net:get', 'net-v2:get', 'net2:get', 'net.x:get', 'Net:get', 'net:Get', 'net::get', 'a:b:c', 'a:b-c'])
         rules[name] = render_expr(rng, rng.sample(LEAVES, rng.randint(1, 4)), rng.randint(1, 5))
     rules['helper'] = render_expr(rng, ['role:admin', 'role:member', '@'], rng.randint(1, 3))
     if rng.random() < 0.5:
